@@ -242,6 +242,7 @@ type env struct {
 	seq   int
 	bad   bool
 
+	unwinding      bool
 	expectTerminal int
 	lastEvent      string
 	// non-triviality evidence of this case
@@ -259,7 +260,7 @@ func (e *env) viol(sig string, detail map[string]any) {
 	detail["version"] = e.cur
 	detail["journal"] = e.cfg.StoreConfig.StateChangeJournalEnabled
 	detail["lss_compaction_interval"] = e.cfg.StoreConfig.LSSCompactionInterval
-	e.run.Violation(sig, e.name, detail)
+	e.run.Violation(sig, "^"+e.name+"$", detail)
 	e.bad = true
 }
 
@@ -745,7 +746,41 @@ func (e *env) opIter(s *session, rev bool) {
 	} else {
 		e.strategyCount(false, rev)
 	}
-	e.scanStore("scan-mismatch", s.label, s.top(), p, rev, e.stateView(s))
+	if e.rng.Intn(4) != 0 {
+		e.scanStore("scan-mismatch", s.label, s.top(), p, rev, e.stateView(s))
+		return
+	}
+	// writes while the iterator is open (gov.go updates validators from inside an iteration callback): the iterator
+	// is a view of the state at its creation
+	want := e.stateView(s).scan(p, rev)
+	var it lib.IteratorI
+	var err lib.ErrorI
+	if rev {
+		it, err = s.top().RevIterator(bytes.Clone(p))
+	} else {
+		it, err = s.top().Iterator(bytes.Clone(p))
+	}
+	if err != nil {
+		e.viol("error op=iterator view="+s.label, map[string]any{"err": err.Error()})
+		return
+	}
+	var got []kv
+	for ; it.Valid() && len(got) <= e.limit() && !e.bad; it.Next() {
+		got = append(got, kv{K: bytes.Clone(it.Key()), V: bytes.Clone(it.Value())})
+		if e.rng.Intn(2) == 0 {
+			if e.rng.Intn(3) == 0 {
+				e.opDelete(s)
+			} else {
+				e.opSet(s)
+			}
+		}
+	}
+	it.Close()
+	if e.bad {
+		return
+	}
+	e.run.Count("scans_with_interleaved_writes", 1)
+	e.cmpScan("scan-mismatch", s.label+"+writes-during-iteration", "api", rev, p, got, len(got) > e.limit(), want)
 }
 
 func (e *env) opNest(s *session) {
@@ -774,7 +809,14 @@ func (e *env) opFlush(s *session) {
 	for k, v := range s.ovs[n-1].index {
 		s.ovs[n-2].index[k] = v
 	}
-	s.stores, s.ovs = s.stores[:n-1], s.ovs[:n-1]
+	if e.rng.Intn(3) == 0 && !e.unwinding {
+		// keep using the flushed transaction: it is an empty overlay again
+		e.logf("%s[%d].(keeps using the flushed txn)", s.label, s.depth())
+		s.ovs[n-1] = newOverlay()
+		e.run.Count("txn_reused_after_flush_or_discard", 1)
+	} else {
+		s.stores, s.ovs = s.stores[:n-1], s.ovs[:n-1]
+	}
 	e.run.Count("nested_flushes", 1)
 }
 
@@ -783,17 +825,25 @@ func (e *env) opDiscardTxn(s *session) {
 		return
 	}
 	n := len(s.ovs)
+	e.run.Count("nested_discards", 1)
 	if e.rng.Intn(3) == 0 {
 		e.logf("%s[%d].abandon", s.label, s.depth()) // the FSM drops a failed transaction's wrapper without calling Discard
 	} else {
 		e.logf("%s[%d].discard", s.label, s.depth())
 		s.top().Discard()
+		if e.rng.Intn(3) == 0 && !e.unwinding {
+			e.logf("%s[%d].(keeps using the discarded txn)", s.label, s.depth())
+			s.ovs[n-1] = newOverlay()
+			e.run.Count("txn_reused_after_flush_or_discard", 1)
+			return
+		}
 	}
 	s.stores, s.ovs = s.stores[:n-1], s.ovs[:n-1]
-	e.run.Count("nested_discards", 1)
 }
 
 func (e *env) unwind(s *session) {
+	e.unwinding = true
+	defer func() { e.unwinding = false }()
 	for s.depth() > 0 && !e.bad {
 		if e.rng.Intn(3) == 0 {
 			e.opDiscardTxn(s)
@@ -1265,7 +1315,7 @@ func nestedProbe(t *testing.T, run *collector, name string, rng *rand.Rand) {
 			if !sameKVs(got, want) {
 				run.Count("nested_key_probe_mismatches", 1)
 				if nestedKeysAreInContract {
-					run.Violation(fmt.Sprintf("nested-key-scan view=%s kind=%s", view, scanKind(got, want, rev)), name,
+					run.Violation(fmt.Sprintf("nested-key-scan view=%s kind=%s", view, scanKind(got, want, rev)), "^"+name+"$",
 						map[string]any{"keys": hexKVs(want), "got": hexKVs(got)})
 				}
 			}
